@@ -861,7 +861,17 @@ package tacquito
 // authorize_fields.go: argument helpers (panic-freedom, C14)
 // ---------------------------------------------------------------------------
 
+// ASV (C11): the argument is split at the FIRST '=' or '*' of its trimmed text (RFC 8907 6.1:
+// whichever separator comes first decides mandatory / optional); asvS names that text.
 //@ func (t Arg) ASV() (a string, s string, v string)
+//@   props C11 C14
+//@   modifies ghost.asvS
+//@   after[C11] Arg.String : ghost.asvS = ret0
+//@   ensures[C11] (forall j int :: {ghost.asvS[j]} (0 <= j && j < len(ghost.asvS)) ==> !oneOf(ghost.asvS[j], "=*")) ==> (len(a) == 0 && len(s) == 0 && len(v) == 0)
+//@   ensures[C11] len(s) <= 1 && (len(s) == 0 ==> (len(a) == 0 && len(v) == 0))
+//@   ensures[C11] len(s) == 1 ==> (len(a) + 1 + len(v) == len(ghost.asvS) && oneOf(ghost.asvS[len(a)], "=*"))
+//@   ensures[C11] len(s) == 1 ==> (forall j int :: {a[j]} (0 <= j && j < len(a)) ==> (a[j] == ghost.asvS[j] && !oneOf(a[j], "=*")))
+//@   ensures[C11] len(s) == 1 ==> (forall j int :: {v[j]} (0 <= j && j < len(v)) ==> v[j] == ghost.asvS[len(a) + 1 + j])
 
 //@ func (t Args) Service() (s string)
 //@   loop 1 invariant -1 <= rangeindex && rangeindex < len(t)
